@@ -611,7 +611,7 @@ fn replay_line(out: &mut Out, line: &str) {
 		},
 		["C17p", h] => emit_text(out, &unhex(h), "replay"),
 		["C17n", _] => nd::replay_line(out, line),
-		_ if t[0] == "C17c" || t[0] == "C17h" => io::replay_line(out, line),
+		_ if t[0] == "C17c" || t[0] == "C17h" || t[0] == "C17b" => io::replay_line(out, line),
 		_ if t[0] == "C17t" || t[0] == "C17u" => tj::replay_line(out, line),
 		_ => out.notes.push(format!("unknown replay line {line}")),
 	}
